@@ -14,7 +14,8 @@ Streams (all on the real classes, `harness/helpers11.py` and `harness/hsm11.py`)
                   oracle of the clauses (is_<state>() and is_<state>(allow_substates=True) for EVERY state, event
                   method vs trigger on twins, to_<state>() / to(<state>), get_triggers vs really firing every event
                   from every state on twins, get_transitions vs the transition objects) + equality with the Lean
-                  model (`c11hsm`: isStateH, getTriggersH, firesIn, helper access paths).
+                  model (`c11hsm`: isStateH, getTriggersH, firesIn, helper access paths; `c11trans`: get_nested_transitions as
+                  coded; `c11wrap`: outcome of the FunctionWrapper binding steps of add_model).
 """
 import copy
 import hashlib
@@ -213,8 +214,9 @@ class C11(runner.Check):
              "trigger and to_* on deep-copied twins, get_triggers against really firing every event from every state).",
         note="Trusted: Lean kernel, hand-written Model/Helpers.lean (flat: whole history modelled; hierarchical: "
              "is_state, get_triggers, helper access paths on the machine's introspected tables), harness/helpers11.py "
-             "and harness/hsm11.py (introspection, twins, oracle). Hierarchical binding / get_transitions and the "
-             "custom-separator FunctionWrapper chains are judged by the oracle only.",
+             "and harness/hsm11.py (introspection, twins, oracle). Hierarchical machines are modelled on the tables "
+             "introspected from the real machine (is_state, get_triggers, get_nested_transitions, helper access paths, "
+             "the wrapper binding steps of add_model); their construction and event dispatch are C13 / C02 / C03.",
         technique="Lean 4 proof (invariants over all histories of reconfigurations) + differential correspondence "
                   "after every step + property oracle on the implementation")
     theorems = ('TM.Helpers.C11_exactly_one_is', 'TM.Helpers.C11_is_helper_answers_current',
@@ -224,6 +226,8 @@ class C11(runner.Check):
                 'TM.Helpers.C11_to_iff_auto', 'TM.Helpers.C11_get_triggers_exact', 'TM.Helpers.C11_get_transitions_exact',
                 'TM.Helpers.C11_get_triggers_nested_sound', 'TM.Helpers.C11_get_triggers_nested_partial',
                 'TM.Helpers.C11_get_triggers_nested_counterexample',
+                'TM.Helpers.C11_get_transitions_nested_partial', 'TM.Helpers.C11_get_transitions_nested_counterexample',
+                'TM.Helpers.C11_wrapper_binding_partial', 'TM.Helpers.C11_wrapper_binding_counterexample',
                 'TM.Helpers.C11_no_overwrite_partial', 'TM.Helpers.C11_no_overwrite_counterexample',
                 'TM.Helpers.C11_checked_assignment', 'TM.Helpers.C11_trigger_ne_attribute',
                 'TM.Helpers.C11_names_injective')
